@@ -229,7 +229,7 @@ def run(ctx):
 def replay(ctx, rec):
     c = rec["case"]
     if "s" not in c:
-        return True
+        raise core.CannotReplay("no executable case in this replay file")
     if c.get("moved_by"):
         o = stored_bins_after_transform([{"s": c["s"] - c["moved_by"], "e": c["e"] - c["moved_by"]}], c["moved_by"])
         return bool(judge(ctx, o, "replay"))
